@@ -247,6 +247,15 @@ pub fn check(case: &Case) -> Outcome {
     o.class_if(accepted, "accepted");
     o.class_if(accepted && nested_info, "accepted+nested-info-key");
     o.class_if(accepted && !case.lz.is_empty() && case.lz.iter().any(|z| *z > 0), "accepted+leading-zero-lengths");
+    // The same document without the `e` that closes the top-level dictionary, when the info value is the last thing in
+    // it: the info dictionary itself is complete, its bytes are what they were. rdest accepts such a document (the known
+    // finding of C16); "for every accepted document" then applies to it as well.
+    if doc.span.1 + 1 == doc.bytes.len() {
+        let cut = &doc.bytes[..doc.bytes.len() - 1];
+        let acc2 = check_doc(cut, Some(doc.span), &mut o);
+        o.class("info-value-ends-the-input");
+        o.class_if(acc2, "accepted+info-value-ends-the-input");
+    }
     o
 }
 
@@ -273,7 +282,7 @@ pub fn check_raw(case: &RawCase) -> Outcome {
 pub fn def() -> PropDef {
     PropDef {
         id: "C05",
-        rule: "a generated metainfo document written by a span-tracking writer: announce + valid single/multi-file info + 0-8 extra top-level keys before/after info (sorted, or out of order) whose values are arbitrary nested bencode incl. dictionaries holding a key spelled `info` at depth 1-3; inside info rotated (non-canonical) key order, extra keys, binary strings; string lengths optionally written with leading zeros; optional well-formed values after the dictionary. Oracle: if from_bencode accepts, info_hash() == SHA-1(doc[span of the top-level info value]) (span cross-checked with the reference parser). Rejection is not a violation; accept rates per class are reported and floors enforced. Non-trivial = a nested dictionary outside info or a non-canonical encoding; distinct by hash of the case.",
+        rule: "a generated metainfo document written by a span-tracking writer: announce + valid single/multi-file info + 0-8 extra top-level keys before/after info (sorted, or out of order) whose values are arbitrary nested bencode incl. dictionaries holding a key spelled `info` at depth 1-3; inside info rotated (non-canonical) key order, extra keys, binary strings; string lengths optionally written with leading zeros; optional well-formed values after the dictionary. When the info value is the last thing in the document, the same bytes without the final `e` of the top-level dictionary are checked too (rdest accepts them: the known finding of C16; the info value is complete and unchanged). Oracle: if from_bencode accepts, info_hash() == SHA-1(doc[span of the top-level info value]) (span cross-checked with the reference parser). Rejection is not a violation; accept rates per class are reported and floors enforced. Non-trivial = a nested dictionary outside info or a non-canonical encoding; distinct by hash of the case.",
         assumptions: &[
             "the document has exactly one top-level `info` key and no values before the top-level dictionary",
             "leading zeros in string lengths are legal encodings (property text)",
@@ -284,7 +293,7 @@ pub fn def() -> PropDef {
                 cases: |t| t.pick(300_000, 5_000_000),
                 run,
                 replay: |v| replay_case::<Case>(v, check),
-                min_class: &[("accepted", 0.5), ("accepted+nested-info-key", 0.05), ("accepted+leading-zero-lengths", 0.02), ("non-canonical-info-order", 0.3), ("trailing-values", 0.1)],
+                min_class: &[("accepted", 0.5), ("accepted+nested-info-key", 0.05), ("accepted+leading-zero-lengths", 0.02), ("non-canonical-info-order", 0.3), ("trailing-values", 0.1), ("accepted+info-value-ends-the-input", 0.08)],
             },
             Sub { name: "raw", cases: |_| 0, run: |_| WorkerReport::default(), replay: |v| replay_case::<RawCase>(v, check_raw), min_class: &[] },
         ],
